@@ -20,7 +20,7 @@ EXPLANATION = (
     'bounded symbolic execution of the real diffing.build_diff (align_heuristically, _DiffFromAlignmentBuilder) and '
     'diffing.apply_diff (resolve_diff_references, _validate_changes, _apply_changes, update_callable, tag operations) '
     'with CrossHair + z3: `old` is a three-node DAG family member (child targets solver-enumerated, six wrapper kinds, '
-    'tags, shared containers), `new` is derived by two edits out of 19 kinds (leaf change, callable swap with and '
+    'tags, shared containers), `new` is derived by two edits out of 20 kinds (leaf change, callable swap with and '
     'without parameter loss, argument add / remove, tag add / remove, alias created / broken, subtree moved, container '
     'edit, subtree replaced, children swapped, rotation) applied to a deep copy or to a shallow copy that shares '
     'objects with old by identity, or is an unrelated family member; edit kinds and pair mode are cube parameters, '
@@ -64,7 +64,7 @@ def _make(t1x, t1y, t2x, t2y, w, off):
 EDITS = ['leaf', 'callable_same_sig', 'callable_drops_param', 'arg_add', 'arg_remove', 'tag_add', 'tag_remove',
          'alias_create', 'alias_break', 'move_subtree', 'container_edit', 'replace_subtree', 'swap_children', 'rotate3',
          'tuple_alias_create', 'tuple_elements_swap', 'callable_to_kwargs_keeping_surplus', 'tuple_append',
-         'tuple_truncate']
+         'tuple_truncate', 'value_removed_and_tags_changed']
 NE = len(EDITS)
 
 
@@ -140,6 +140,16 @@ def _edit(e, root, i, off):
     if fdl.get_callable(root) is two:
       return False
     root.x, root.y, root.z = root.__arguments__.get('y'), root.__arguments__.get('z', off + 90), root.x
+  elif e == 19:
+    # one argument loses its value and changes its tag set in the same step
+    tagged = [(b, k) for b in nodes for k, ts in b.__argument_tags__.items() if ts and k in b.__arguments__]
+    if not tagged:
+      return False
+    b, k = tagged[i % len(tagged)]
+    delattr(b, k)
+    fdl.clear_tags(b, k)
+    if i % 2:
+      fdl.add_tag(b, k, T1)
   elif e == 16:
     # the new callable takes **kwargs: the argument it has no parameter for stays, as an extra keyword
     if fdl.get_callable(n) is two:
@@ -170,7 +180,7 @@ def c10_pair(mode: int, e1: int, e2: int, i1: int, i2: int, w: int, t1x: int, t1
   """
   mode 0: new = deepcopy(old) + edits; 1: new = shallow copy of old + edits (shares objects with old by identity);
   2: new = an unrelated member (targets u*) + edits.
-  require: 0 <= mode <= 5 and 0 <= e1 <= 18 and 0 <= e2 <= 18 and 0 <= i1 <= 2 and 0 <= i2 <= 2 and 0 <= w <= 5
+  require: 0 <= mode <= 5 and 0 <= e1 <= 19 and 0 <= e2 <= 19 and 0 <= i1 <= 2 and 0 <= i2 <= 2 and 0 <= w <= 5
   require: -1 <= t1x <= 0 and -1 <= t1y <= 0 and -1 <= t2x <= 1 and -1 <= t2y <= 1
   require: -1 <= u1x <= 0 and -1 <= u2x <= 1 and -1 <= u2y <= 1
   """
@@ -233,7 +243,10 @@ def c10_empty(w: int, t1x: int, t1y: int, t2x: int, t2y: int) -> bool:
   require: 0 <= w <= 5 and -1 <= t1x <= 0 and -1 <= t1y <= 0 and -1 <= t2x <= 1 and -1 <= t2y <= 1
   """
   t1x, t1y, t2x, t2y = _conc(t1x, -1, 0), _conc(t1y, -1, 0), _conc(t2x, -1, 1), _conc(t2y, -1, 1)
-  old, _ = _make(t1x, t1y, t2x, t2y, _conc(w, 0, 5), 0)
+  old, nodes = _make(t1x, t1y, t2x, t2y, _conc(w, 0, 5), 0)
+  nodes[0].z['nan'] = float('nan')               # a leaf that is not equal to itself
+  nodes[0].y = [float('nan'), (float('nan'),)]
+  old.z = (float('nan'), [float('nan')], {'n': float('nan')})
   d = diffing.build_diff(old, copy.deepcopy(old))
   note('c10e', w, t1x, t1y, t2x, t2y)
   return d.changes == () and d.new_shared_values == ()
